@@ -391,3 +391,18 @@ Example ex_xown :
   c19x_ok (XOwn tb ts raw [] ["Files[].ChunkMatches[].Content"%string] []) = false /\
   c19x_ok (XOwn (tl tb) ts raw [] [] []) = false.
 Proof. vm_compute. repeat split. Qed.
+
+(** the obligation is NECESSARY: whatever the program, a view of shard memory in a field outside its copied set is still
+    in the result after copying, and reading the result once the shards are unmapped faults *)
+Theorem C19_uncopied_view_faults : forall (root : string) (prog : list stmt) (r : result) (sh : shards) (hp hp' : heap)
+    (r' : result) (p : path) (id : N) (off len : nat),
+  In (p, mkBS (RShard id) off len) r -> mem_path p (copied_paths root prog) = false ->
+  copy_result sh hp (copied_paths root prog) r = Ok (hp', r') ->
+  In (p, mkBS (RShard id) off len) r' /\ exists w, read_all ex_unmapped hp' r' = Panic w.
+Proof. intros root prog. exact (uncopied_view_faults (copied_paths root prog)). Qed.
+Print Assumptions C19_uncopied_view_faults.
+Example ex_uncopied_view :
+  In ("Files[].ChunkMatches[].Content"%string, mkBS (RShard 1) 0 7) ex_result /\
+  mem_path "Files[].ChunkMatches[].Content" (copied_paths "sr" loopvar_prog) = false /\
+  is_ok (copy_result ex_mapped [] (copied_paths "sr" loopvar_prog) ex_result) = true.
+Proof. vm_compute. repeat split. right. right. right. left. reflexivity. Qed.
